@@ -17,7 +17,7 @@ RULE = ("random op sequences (<= 30 ops quick / <= 300 thorough) over 8 value sl
         "used by reference, the documented aliasing case, wrong-kind calls, invalid keys; non-trivial = a sequence with at "
         "least 3 successful mutating container operations")
 
-OK, ARG, BADNAME, NOSUCH, BADIDX = 0, 6, 42, 43, 73
+OK, ARG, DUPNAME, BADNAME, NOSUCH, BADIDX = 0, 6, 41, 42, 43, 73
 
 TABLE_KEYS = ["a", "b", "A", "", "k 1", " x", "\u00e9", "e\u0301", "\u4e2d", "'q'", "ke;y", "\u00c5", "\u212b", "A\u030a"]
 BAD_TABLE_KEYS = ["\x01", "a\ufffe", "\ud800x"]
@@ -147,18 +147,13 @@ class Sim:
         return " ; ".join(self.show_root(("s", k, [])) for k in range(8)) + " ; " + " ; ".join(self.show_root(("p", k, [])) for k in range(4))
 
     def copy_onto(self, src, dst):
-        """documented: the target is cleaned first, then the source is copied onto it"""
-        self.get(src), self.get(dst)
-        if src[:2] == dst[:2] and src[2][:len(dst[2])] == dst[2] and len(src[2]) > len(dst[2]):
-            raise Hazard("source-inside-target")
+        """copy what is put in: the target ends up a copy of the source as it was before the call (wherever the source lies
+        relative to the target); passing the very object is the documented no-op"""
+        val = self.get(src)
+        self.get(dst)
         if src == dst:
-            raise Hazard("clone-self")
-        if src[:2] == dst[:2] and dst[2][:len(src[2])] == src[2]:
-            # the target is a member of the source: "clean the target, then copy the source" has no sensible reading
-            # (the source changes while it is copied); demanded: no crash
-            raise Hazard("target-inside-source")
-        self.put(dst, ("U",))
-        self.put(dst, self.get(src))
+            return
+        self.put(dst, val)
 
     # -- operations: return the expected observation text (without root dumps) and the list of refs whose root is dumped
     def precheck(self, o):
@@ -337,7 +332,7 @@ class Sim:
             ents, seen = [], set()
             for n in names:
                 if norm_name(n) in seen:
-                    raise Hazard("pkt-dup")          # two names for one item: a packet is a map, the contract says nothing sensible
+                    return str(DUPNAME), [ref]       # two names for one item: refused (CIF_DUP_ITEMNAME)
                 seen.add(norm_name(n))
                 ents.append((G.units_of(n), ("U",)))
             self.set_root(ref, ("P", ents))
@@ -765,14 +760,8 @@ def split_impl(impl):
 
 def oracle(req, impl):
     if not impl.startswith("vl"):
-        try:
-            _, hz, kind, _ = replay(req)
-        except Exception:
-            return None
-        if hz is not None:
-            return "operation %d passes an object that is (inside) the object being replaced [%s]: %s" % (hz, kind, impl)
-        return None            # generic crash handling
-    want, hz, kind, sim = replay(req)
+        return None            # crashes / time-outs are judged generically
+    want, _, _, sim = replay(req)
     got, final = split_impl(impl)
     for i, w in enumerate(want):
         if i >= len(got):
@@ -783,23 +772,37 @@ def oracle(req, impl):
             if o[0] == "init" and w.startswith(str(ARG)) and g.startswith(str(ARG)):
                 continue               # state after a failed init is unspecified by the documentation
             return "operation %d (%s): contract predicts '%s', implementation observed '%s'" % (i, " ".join(op_tokens(o))[:80], w[:200], g[:200])
-    if hz is not None:
-        o = parse_ops(req)[hz]
-        if kind == "pkt-dup":
-            g = got[hz] if hz < len(got) else ""
-            if g.startswith("0"):
-                return "cif_packet_create accepted two names for the same item [pkt-dup]: %s" % g[:200]
-            return None
-        if kind == "clone-self":
-            # cloning an object onto itself must leave it equal to the original
-            before = sim.show_root(o[2])
-            g = got[hz] if hz < len(got) else ""
-            if g != "0 : " + before:
-                return "clone of an object onto itself changed it [clone-self]: expected '0 : %s', observed '%s'" % (before[:150], g[:150])
-            return None
-        return None   # source inside target, survived: nothing more to demand
     if final is not None and final != sim.final():
         return "final state differs from the contract's: expected '%s', observed '%s'" % (sim.final()[:300], final[:300])
+    return None
+
+
+def alias_kind(req):
+    """which special relation between source and target a sequence contains (for the histogram)"""
+    try:
+        ops = parse_ops(req)
+    except Exception:
+        return None
+    for o in ops:
+        src = dst = None
+        if o[0] == "cln":
+            src, dst = o[1], o[2]
+        elif o[0] == "lset" and o[3] is not None:
+            src, dst = o[3], (o[1][0], o[1][1], o[1][2] + [("i", o[2])])
+        elif o[0] in ("tset", "pset") and o[3] is not None:
+            nk = (norm_name if o[0] == "pset" else norm_table_key)(o[2])
+            src, dst = o[3], (o[1][0], o[1][1], o[1][2] + [("k", nk)])
+        elif o[0] == "pnew":
+            ns = [norm_name(n) for n in o[2]]
+            if None not in ns and len(set(ns)) < len(ns):
+                return "pkt-dup"
+        if src is not None:
+            if src == dst:
+                return "same-object"
+            if inside(src, dst):
+                return "source-inside-target"
+            if inside(dst, src):
+                return "target-inside-source"
     return None
 
 
@@ -813,12 +816,9 @@ def nontrivial(req, impl):
 
 
 def classify(req, impl):
-    try:
-        _, hz, kind, _ = replay(req)
-    except Exception:
-        return "unparsed"
-    if hz is not None:
-        return kind
+    k = alias_kind(req)
+    if k:
+        return k
     n = req.count(" | ") + 1
     return "plain <=8 ops" if n <= 8 else ("plain <=30 ops" if n <= 30 else "plain >30 ops")
 
@@ -836,34 +836,4 @@ def shrink(req):
 
 
 def finding_class(req, impl, model, why):
-    if why and "[source-inside-target]" in why:
-        return "source-inside-target"
-    if why and "[clone-self]" in why:
-        return "clone-self"
-    if why and "[pkt-dup]" in why:
-        return "pkt-dup"
     return None
-
-
-def agree(impl, model, req=None):
-    """the model follows the C as written; past an operation whose source lies inside its target (where the C reads freed
-    memory and the model answers `uaf`) nothing is compared"""
-    if impl == model:
-        return True
-    try:
-        _, hz, kind, _ = replay(req)
-    except Exception:
-        return False
-    if hz is not None and kind == "source-inside-target":
-        gi, _ = split_impl(impl)
-        gm, _ = split_impl(model)
-        return gi[:hz] == gm[:hz]
-    return False
-
-
-def model_request(req, impl):
-    """VERIF_GG_REPAIRED=1 selects the model of the code with the repairs proposed for F32/F33 applied (used to test the
-    candidate patch on a scratch copy; never derived from the implementation's answer)"""
-    if os.environ.get("VERIF_GG_REPAIRED") == "1":
-        return "val @repaired " + req[4:]
-    return req
